@@ -49,7 +49,8 @@ EXPECTED_PROBES = ['honest_transfer_ok', 'one_byte_fragments', 'header_alone', '
                    'hostile_server_fired', 'hostile_client_fired', 'liar_sent_right_bytes_verified', 'followup_honest_ok',
                    'server_closed_hostile', 'closed_by_idle_timeout', 'closed_immediately', 'request_ended_cancelled',
                    'unknown_length_request', 'client_data_received_escape', 'server_data_received_escape', 'recovered_after_net_fault',
-                   'honest_transfer_longer_than_idle_timeout']
+                   'honest_transfer_longer_than_idle_timeout', 'race_checked', 'race_two_honest',
+                   'race_liar_during_honest_body']
 
 MAX = 2 * 1024 * 1024
 SERVER_CATALOGUE = ['wrong_hash', 'length_short', 'length_long', 'length_zero', 'length_negative', 'length_huge', 'length_string',
@@ -57,6 +58,10 @@ SERVER_CATALOGUE = ['wrong_hash', 'length_short', 'length_long', 'length_zero', 
                     'availability_mismatch', 'availability_empty', 'price_rejected', 'error_object', 'malformed_json',
                     'nested_json', 'oversized_json', 'non_utf8', 'body_without_header', 'drip', 'reset_mid_body',
                     'close_after_header', 'wrong_then_right', 'no_reply', 'unrelated_bytes']
+# misbehaviours of the second peer of family `race` (the ones that end its own transfer quickly)
+RACE_CATALOGUE = ['wrong_hash', 'length_short', 'length_long', 'length_zero', 'length_huge', 'corrupt_byte', 'excess_bytes',
+                  'availability_mismatch', 'price_rejected', 'error_object', 'malformed_json', 'reset_mid_body',
+                  'close_after_header', 'unrelated_bytes', 'short_then_silence']
 CLIENT_CATALOGUE = ['oversized', 'oversized_with_brace', 'no_brace_trickle', 'invalid_json', 'json_list', 'json_string',
                     'empty_requested_blobs', 'non_string_hash', 'unknown_blob', 'unverified_blob', 'path_hash',
                     'pipelined', 'never_read', 'request_then_close', 'non_utf8']
@@ -155,6 +160,23 @@ def gen(run_seed, tier):
         blobs[0]['kind'] = 'response_like'
         ops.append({'op': 'client', 'id': 0, 'requests': [0], 'via': 'request_blob', 'know_length': r.random() < 0.5, 'start': 0.0, 'gap': 0.0})
     sc['ops'] = ops
+    # family `race` (own stream, earlier histories unchanged): one client fetches ONE blob from an honest server and
+    # from a second peer at the same time over two connections; the second peer lies (catalogue) once the honest
+    # transfer is under way, or is honest too and finishes at about the same time
+    r4 = stream('C10.gen.race', run_seed)
+    if r4.random() < 0.09:
+        n = r4.choice([1200, 16384, 16385, 65536, 200_000, 500_000, r4.randint(2000, 300_000)])
+        second = r4.choice(['honest'] * 8 + RACE_CATALOGUE * 2 + ['not_available', 'not_available'])
+        sc = {'family': 'race',
+              'timeouts': {'connect': 3.0, 'download': r4.choice([5.0, 30.0]), 'idle': 30.0, 'transfer': 60.0},
+              'net': {'latency': [0.0005, r4.choice([0.002, 0.02])], 'chunk_mode': r4.choice(['mixed', 'whole']),
+                      'connect_latency': [0.001, 0.01], 'stall_prob': 0.0, 'stall_s': 1.0},
+              'exec_delay': r4.choice([0.0005, 0.002, 0.01]),
+              'blobs': [{'n': n, 'seed': r4.getrandbits(32), 'kind': 'rand'}],
+              'ops': [{'op': 'race', 'behaviour': second, 'at': 0, 'p': r4.random(), 'know_length': r4.random() < 0.25,
+                       'second_after': round(r4.choice([0.0, 0.05, 0.3, 0.6, 0.9, r4.random()]), 3),
+                       'second_delay': r4.choice([0.0, 0.0, 0.0005, 0.002, 0.01]),
+                       'second_start': r4.choice(['early', 'early', 'late'])}]}
     return sc
 
 
@@ -662,6 +684,13 @@ def execute(scenario, keep_trace=False):
             t, r, n = self.transport, self.r, len(content)
             if t is None:
                 return
+            if beh != 'honest' and self.op.get('op') == 'race':
+                await state['race_go'].wait()       # see race_session: a liar speaks once the honest header is in
+                await asyncio.sleep(self.op.get('second_delay', 0.0))
+                t = self.transport
+                if t is None:
+                    return
+                state['race_fire_got'] = state['race_progress'].got
             if beh != 'honest':
                 run.faults['hs_' + beh] += 1
                 run.probes['hostile_server_fired'] += 1
@@ -742,6 +771,9 @@ def execute(scenario, keep_trace=False):
                     self.transport.write(self.header(h, n) + content)
             elif beh == 'no_reply':
                 return
+            elif beh == 'not_available':
+                t.write(json.dumps({'available_blobs': [], 'blob_data_payment_rate': 'RATE_ACCEPTED',
+                                    'incoming_blob': {'error': 'BLOB_UNAVAILABLE'}}).encode())
             elif beh == 'unrelated_bytes':
                 t.write(self.header(h, n) + r.randbytes(n))
             else:
@@ -822,6 +854,98 @@ def execute(scenario, keep_trace=False):
             await honest_client({'id': 0, 'requests': fresh[:2], 'via': 'request_blob', 'know_length': False})
             if not run.violations:
                 run.probes['followup_honest_ok'] += 1
+
+    # ---- two peers, one blob ------------------------------------------------------------------------
+    async def race_session(op):
+        await start_real_server()
+        srv = await loop.create_server(lambda: HostileServer(op), HOSTILE_IP, PORT)
+        node = state['clients'][0] = await make_node('c0')
+        bm = node['bm']
+        h, content = hashes[0], blobs[0]
+        n = len(content)
+        length = n if op.get('know_length') else None
+        blob = bm.get_blob(h, length)
+        go = state['race_go'] = asyncio.Event()
+        threshold = int(op.get('second_after', 0.0) * n)
+
+        class Progress:
+            got = 0
+
+            def on_deliver(self, transport, chunk):
+                if getattr(transport, 'peername', (None,))[0] == SERVER_IP:
+                    self.got += len(chunk)
+                    # the honest header (well under 400 bytes) has been handed to the client: its length is in place
+                    if self.got >= 400 + threshold:
+                        go.set()
+        progress = state['race_progress'] = Progress()
+        net.observers.append(progress)
+        state['judged'] += 1
+        t0 = loop.time()
+
+        async def first():
+            return await request_blob(loop, blob, SERVER_IP, PORT, T['connect'], T['download'])
+
+        async def second():
+            if op['behaviour'] == 'honest' or op.get('second_start') == 'early':
+                # two honest peers neck and neck; or a liar that is asked at the same time (both requests start with
+                # the length unknown) and answers later
+                await asyncio.sleep(op.get('second_delay', 0.0))
+            else:
+                # a liar may speak only once the honest header is in (the scripted server waits for `go` too): a wrong
+                # length announced FIRST makes the honest header look like the lie, which the statement does not exclude
+                await go.wait()
+            return await request_blob(loop, blob, HOSTILE_IP, PORT, T['connect'], T['download'])
+        tasks = [loop.create_task(first()), loop.create_task(second())]
+        bound = 2 * (T['connect'] + 2 * T['download']) + 5.0
+        done, pending = await asyncio.wait(tasks, timeout=bound)
+        go.set()
+        if pending:
+            for t in pending:
+                t.cancel()
+            run.violation('C10.request_never_ended', f'two requests for one blob (second peer `{op["behaviour"]}`): '
+                          f'{len(pending)} still pending after {bound:.0f}s', behaviour=op['behaviour'])
+            return
+        outcomes = []
+        for t in tasks:
+            if t.cancelled():
+                outcomes.append('cancelled')
+            elif t.exception() is not None:
+                e = t.exception()
+                run.violation('C10.request_raised', f'two requests for one blob (second peer `{op["behaviour"]}`): request_blob '
+                              f'raised {type(e).__name__}: {e}', behaviour=op['behaviour'], exc=type(e).__name__)
+                return
+            else:
+                outcomes.append('returned')
+                if t.result()[1] is not None:
+                    t.result()[1].close()
+        await asyncio.sleep(0.5)
+        net.observers.remove(progress)
+        srv.close()
+        data = file_state(node, h)
+        status = be.blob_status_map(node['dirs'].db_path).get(h)
+        run.ev('race', op['behaviour'], outcomes, round(loop.time() - t0, 4), bool(blob.get_is_verified()),
+               None if data is None else len(data), status, blob.get_length())
+        run.probes['race_checked'] += 1
+        if op['behaviour'] == 'honest':
+            run.probes['race_two_honest'] += 1
+        elif state.get('race_fire_got', n + 10 ** 6) < n:
+            run.probes['race_liar_during_honest_body'] += 1
+        if not check_poison(node, h, 'race'):
+            return
+        what = None
+        if not blob.get_is_verified() or data != content:
+            what = f'the blob ended unverified/unequal (verified={blob.get_is_verified()}, file={"none" if data is None else len(data)})'
+        elif blob.get_length() != n:
+            what = f'the blob is verified but its length is {blob.get_length()!r}'
+        elif status != 'finished' or h not in bm.completed_blob_hashes:
+            what = (f'the blob is verified on disk but was never recorded (status={status!r}, in completed set='
+                    f'{h in bm.completed_blob_hashes})')
+        if what:
+            run.violation('C10.honest_transfer_failed', f'client fetching a blob of {n} bytes from an honest server while a '
+                          f'second peer (`{op["behaviour"]}`) served the same blob on another connection: {what}; requests '
+                          f'ended {outcomes}; client-side escapes: '
+                          f'{[e[2:] for e in net.data_received_escapes if e[1] == "client"][:2]}',
+                          via='race', jsonlike=False)
 
     # ---- scripted hostile client --------------------------------------------------------------------
     class HostileClient(asyncio.Protocol):
@@ -956,6 +1080,11 @@ def execute(scenario, keep_trace=False):
             for op in ops:
                 if op['op'] == 'hostile_server':
                     await hostile_server_session(op)
+                    break
+        elif fam == 'race':
+            for op in ops:
+                if op['op'] == 'race':
+                    await race_session(op)
                     break
         else:
             await start_real_server()
